@@ -76,7 +76,11 @@ func skelText(items []*skel) string {
 }
 
 // container label: kind 'g' group, 'm' mount, 'x' mount-from-group (group(P1){mount(P2){...}}),
-// 'y' mount-in-mount (mount(P1){mount(P2){...}})
+// 'y' mount-in-mount (mount(P1){mount(P2){...}}); registration-forms family: 'G' group created with a
+// middleware, 'X' mount-from-group whose group was created with a middleware, 'z' group-in-mount
+// (mount(P1){group(P2 +mw){...}}), 'w' group-in-group (group(P1){group(P2 +mw){...}}); shared sub-app
+// family: 'd' mount(P1){...} directly followed by again(P2) (the same sub-app object mounted once more),
+// 'e' the same with again(P2) after the remaining items of the list
 type clabel struct {
 	K      byte
 	P1, P2 string
@@ -155,15 +159,16 @@ func containerAlphabet(order []string, nPrefix, nGM, nMM int) []clabel {
 // policy: alphabets per size class
 type policy struct {
 	depth, cMax, nMax int
-	nPrefix           func(c, n int) int   // 6 = full, 3 = reduced
-	nGM               func(c, n int) int   // mount-from-group letters (quick tier only; the thorough tier nests for real)
-	nMM               func(c, n int) int   // mount-in-mount letters (quick tier only)
-	nLeaf             func(c, n int) int   // fullLeaves = full
-	leaves            []leaf               // leaf letters in enumeration order (nil = leafOrder)
-	minTop            int                  // least number of top-level items of a skeleton
-	prefixes          []string             // container prefixes in enumeration order (nil = prefixOrder)
-	cfgsFor           func(c, n int) []int // parameterised-prefix family: configurations (indexes into cfgs) per size class
-	phasedCfgs        []int                // late-registration family: configurations (indexes into cfgs) under which the two-phase programs run
+	nPrefix           func(c, n int) int      // 6 = full, 3 = reduced
+	nGM               func(c, n int) int      // mount-from-group letters (quick tier only; the thorough tier nests for real)
+	nMM               func(c, n int) int      // mount-in-mount letters (quick tier only)
+	nLeaf             func(c, n int) int      // fullLeaves = full
+	leaves            []leaf                  // leaf letters in enumeration order (nil = leafOrder)
+	minTop            int                     // least number of top-level items of a skeleton
+	prefixes          []string                // container prefixes in enumeration order (nil = prefixOrder)
+	cfgsFor           func(c, n int) []int    // parameterised-prefix family: configurations (indexes into cfgs) per size class
+	phasedCfgs        []int                   // late-registration family: configurations (indexes into cfgs) under which the two-phase programs run
+	containers        func(c, n int) []clabel // container letters per size class (nil = containerAlphabet of nPrefix/nGM/nMM)
 }
 
 func quickPolicy() policy {
@@ -247,6 +252,7 @@ type classCount struct {
 	NGM       int
 	NMM       int
 	NLeaf     int
+	CLetters  int // number of container letters when the policy lists them itself
 }
 
 // enumerate calls visit(idx, tree) for every tree of the policy, in a fixed order.
@@ -260,15 +266,25 @@ func enumerate(p policy, want func(idx int64) bool, visit func(idx int64, t *tre
 	cc := map[[2]int]*classCount{}
 	var idx int64
 	for _, s := range sk {
-		np, nl := p.nPrefix(s.c, s.n), p.nLeaf(s.c, s.n)
-		ca := containerAlphabet(p.prefixes, np, p.nGM(s.c, s.n), p.nMM(s.c, s.n))
-		if nl == 0 && s.n > 0 {
+		nl := p.nLeaf(s.c, s.n)
+		var ca []clabel
+		var np, ngm, nmm int
+		if p.containers != nil {
+			ca = p.containers(s.c, s.n)
+		} else {
+			np, ngm, nmm = p.nPrefix(s.c, s.n), p.nGM(s.c, s.n), p.nMM(s.c, s.n)
+			ca = containerAlphabet(p.prefixes, np, ngm, nmm)
+		}
+		if (nl == 0 && s.n > 0) || len(ca) == 0 {
 			continue // class not part of this family
 		}
 		la := lo[:nl]
 		k := [2]int{s.c, s.n}
 		if cc[k] == nil {
-			cc[k] = &classCount{C: s.c, N: s.n, NPrefix: np, NGM: p.nGM(s.c, s.n), NMM: p.nMM(s.c, s.n), NLeaf: nl}
+			cc[k] = &classCount{C: s.c, N: s.n, NPrefix: np, NGM: ngm, NMM: nmm, NLeaf: nl}
+			if p.containers != nil {
+				cc[k].CLetters = len(ca)
+			}
 		}
 		cc[k].Skeletons++
 		// odometer: containers (slow) then leaves (fast), both in DFS order
@@ -324,6 +340,7 @@ func enumerate(p policy, want func(idx int64) bool, visit func(idx int64, t *tre
 
 func instantiateSkel(items []*skel, ca []clabel, la []leaf, cd, ld []int, ci, li *int) []*node {
 	out := make([]*node, 0, len(items))
+	var atEnd []*node // 'e' letters: the second mount of the sub-app follows the other items of the list
 	for _, it := range items {
 		if it.leaf {
 			l := la[ld[*li]]
@@ -339,14 +356,32 @@ func instantiateSkel(items []*skel, ca []clabel, la []leaf, cd, ld []int, ci, li
 			out = append(out, &node{T: 'g', Prefix: lab.P1, Items: []*node{{T: 'm', Prefix: lab.P2, Items: ch}}})
 		case 'y':
 			out = append(out, &node{T: 'm', Prefix: lab.P1, Items: []*node{{T: 'm', Prefix: lab.P2, Items: ch}}})
+		case 'G':
+			out = append(out, &node{T: 'g', Prefix: lab.P1, MW: true, Items: ch})
+		case 'X':
+			out = append(out, &node{T: 'g', Prefix: lab.P1, MW: true, Items: []*node{{T: 'm', Prefix: lab.P2, Items: ch}}})
+		case 'z':
+			out = append(out, &node{T: 'm', Prefix: lab.P1, Items: []*node{{T: 'g', Prefix: lab.P2, MW: true, Items: ch}}})
+		case 'w':
+			out = append(out, &node{T: 'g', Prefix: lab.P1, Items: []*node{{T: 'g', Prefix: lab.P2, MW: true, Items: ch}}})
+		case 'd':
+			out = append(out, &node{T: 'm', Prefix: lab.P1, Items: ch}, &node{T: 's', Prefix: lab.P2})
+		case 'e':
+			out = append(out, &node{T: 'm', Prefix: lab.P1, Items: ch})
+			if len(atEnd) == 0 { // an 's' node names the closest preceding mount: one deferred letter per list
+				atEnd = append(atEnd, &node{T: 's', Prefix: lab.P2})
+			}
 		default:
 			out = append(out, &node{T: lab.K, Prefix: lab.P1, Items: ch})
 		}
 	}
-	return out
+	return append(out, atEnd...)
 }
 
 func (c classCount) String() string {
+	if c.CLetters > 0 {
+		return fmt.Sprintf("containers=%d leaves=%d: %d skeletons x labellings (container letters = %d, leaf letters = %d) = %d trees", c.C, c.N, c.Skeletons, c.CLetters, c.NLeaf, c.Trees)
+	}
 	return fmt.Sprintf("containers=%d leaves=%d: %d skeletons x labellings (container letters = {mount, group} x %d prefixes + %d mount-from-group pairs + %d mount-in-mount pairs, leaf letters = %d) = %d trees", c.C, c.N, c.Skeletons, c.NPrefix, c.NGM, c.NMM, c.NLeaf, c.Trees)
 }
 
@@ -566,5 +601,323 @@ func thoroughRichPolicy() policy {
 				return 16
 			}
 			return 4
+		}}
+}
+
+// ---------------------------------------------------------------------------
+// registration-forms family ("every way of registering")
+//
+// The families above register every route with Get/Post/Use/All and one handler, and create every
+// group without handlers. This family spells the registrations of sub-apps, groups and the root in
+// the other documented forms: the verb-specific methods (Head ... Patch), several methods in one Add,
+// the multiple-prefix Use([]string{...}, h), several handlers in one registration, a Route()
+// obtained from the enclosing group / sub-app, groups created with a middleware
+// (router.Group(prefix, mw), also nested in groups and in sub-apps), prefixes and patterns written
+// without the leading slash. Explored in formMode: requests of every HTTP method, handlers also
+// report Route().Method. (The empty pattern is left to the first family: known finding.)
+
+var formPrefixOrder = []string{"/api", "api", "/:t", "/"}
+
+func formContainers(full bool) []clabel {
+	var out []clabel
+	np := 2
+	if full {
+		np = len(formPrefixOrder)
+	}
+	for _, k := range []byte{'m', 'G', 'g'} {
+		for _, p := range formPrefixOrder[:np] {
+			out = append(out, clabel{K: k, P1: p})
+		}
+	}
+	// two-level letters: a group with a middleware around / inside a mount, inside a group; spelled without leading slashes
+	out = append(out, clabel{'X', "/api", "/v"}, clabel{'z', "/api", "/v"}, clabel{'w', "/api", "/v"})
+	if full {
+		out = append(out, clabel{'X', "api", "v"}, clabel{'z', "api", "v"}, clabel{'w', "api", "v"},
+			clabel{'x', "api", "v"}, clabel{'y', "api", "v"}, clabel{'z', "/:t", "/"}, clabel{'w', "/", "/v"})
+	}
+	return out
+}
+
+var formLeafOrder = func() []leaf {
+	first := []leaf{
+		{kUSEL, "/x", true}, {kGET2, "/x", false}, {kPATCH, "/x", false}, {kRGET, "/x", false},
+		{kADD2, "x", false}, {kRALL, "/x", true}, {kHEAD, "/:id", false}, {kUSE2, "x", true},
+		{kGET, "/x", false}, {kUSE, "/", true}, {kUSEL, "x", true}, {kDELETE, "/", false},
+	}
+	seen := map[leaf]bool{}
+	out := append([]leaf(nil), first...)
+	for _, l := range first {
+		seen[l] = true
+	}
+	for _, k := range []uint8{kUSEL, kGET2, kUSE2, kADD2, kRGET, kRALL, kHEAD, kPOST, kPUT, kDELETE, kCONNECT, kOPTIONS, kTRACE, kPATCH, kGET, kUSE, kALL} {
+		for _, p := range []string{"/x", "x", "/", "/:id"} {
+			for _, nx := range []bool{false, true} {
+				l := leaf{k, p, nx}
+				if !seen[l] {
+					out = append(out, l)
+				}
+			}
+		}
+	}
+	return out
+}()
+
+const fullFormLeaves = 136 // 17 kinds x 4 patterns x 2 behaviours
+
+func quickFormPolicy() policy {
+	two := []int{0, len(cfgs) - 1}
+	return policy{depth: 2, cMax: 2, nMax: 2, minTop: 1, leaves: formLeafOrder,
+		cfgsFor: func(c, n int) []int { return two },
+		containers: func(c, n int) []clabel {
+			switch {
+			case c == 1 && n <= 1:
+				return formContainers(true)
+			case n <= 1:
+				return formContainers(false)[:6] // two prefixes x {mount, group+mw, group}
+			}
+			return formContainers(false)
+		},
+		nLeaf: func(c, n int) int {
+			switch {
+			case c == 1 && n <= 1:
+				return fullFormLeaves
+			case c == 1:
+				return 9
+			case n <= 1:
+				return 16
+			}
+			return 0
+		}}
+}
+
+func thoroughFormPolicy() policy {
+	return policy{depth: 2, cMax: 2, nMax: 2, minTop: 1, leaves: formLeafOrder,
+		cfgsFor: func(c, n int) []int {
+			if c == 1 && n <= 1 {
+				return allCfgs()
+			}
+			return []int{0, len(cfgs) - 1}
+		},
+		containers: func(c, n int) []clabel {
+			switch {
+			case c == 1:
+				return formContainers(true)
+			case n <= 1:
+				return formContainers(false)
+			}
+			return formContainers(false)[:6]
+		},
+		nLeaf: func(c, n int) int {
+			switch {
+			case c == 1 && n <= 1:
+				return fullFormLeaves
+			case c == 1:
+				return 30
+			case n <= 1:
+				return 48
+			}
+			return 6
+		}}
+}
+
+// ---------------------------------------------------------------------------
+// pattern-shape family ("patterns and prefixes of every shape")
+//
+// Explored in richMode like the parameterised-prefix family, with other letters: prefixes and
+// patterns written without the leading slash, of several segments, ending in a slash, with an
+// escaped special character ("/a\:b" is the constant "/a:b", "/x\*" the constant "/x*"), with a
+// parameter after a constant inside one segment ("/v:id") and with a CUSTOM constraint
+// (":id<odd>"; every application of a program registers the constraint with
+// RegisterCustomConstraint; requests carry an odd digit, an even digit and a letter).
+
+var shapePrefixOrder = []string{"/api", `/a\:b`, "/:t<odd>", "api", "/v1/api", "/api/v1/"}
+
+var shapeLeafOrder = func() []leaf {
+	first := []leaf{
+		{kGET, "/:id<odd>", false}, {kGET, `/a\:b`, false}, {kUSE, "/:id<odd>", true}, {kGET, "x", false},
+		{kUSE, `/a\:b`, true}, {kGET, "/x/y", false}, {kGET, "/:id<odd>/z", false}, {kGET, "/x/", false},
+		{kGET, "/v:id", false}, {kGET, `/x\*`, false}, {kUSE, "/x/", true}, {kGET, "/:id", false},
+	}
+	seen := map[leaf]bool{}
+	out := append([]leaf(nil), first...)
+	for _, l := range first {
+		seen[l] = true
+	}
+	for _, k := range []uint8{kGET, kUSE, kALL} {
+		for _, p := range []string{"/:id<odd>", `/a\:b`, "x", "/x/y", "/x/", "/:id<odd>/z", "/v:id", `/x\*`, "/:id", "/x"} {
+			for _, nx := range []bool{false, true} {
+				l := leaf{k, p, nx}
+				if !seen[l] {
+					out = append(out, l)
+				}
+			}
+		}
+	}
+	return out
+}()
+
+const fullShapeLeaves = 60 // 3 kinds x 10 patterns x 2 behaviours
+
+func quickShapePolicy() policy {
+	two := []int{0, len(cfgs) - 1}
+	return policy{depth: 3, cMax: 2, nMax: 2, minTop: 1, leaves: shapeLeafOrder, prefixes: shapePrefixOrder,
+		cfgsFor: func(c, n int) []int {
+			if c == 1 && n <= 1 {
+				return allCfgs()
+			}
+			return two
+		},
+		nGM: func(c, n int) int { return 0 },
+		nMM: func(c, n int) int { return 0 },
+		nPrefix: func(c, n int) int {
+			switch {
+			case c == 1 && n <= 1:
+				return 6
+			case c == 1:
+				return 4
+			}
+			return 3
+		},
+		nLeaf: func(c, n int) int {
+			switch {
+			case c == 1 && n <= 1:
+				return fullShapeLeaves
+			case c == 1:
+				return 8
+			case n <= 1:
+				return 12
+			}
+			return 0
+		}}
+}
+
+func thoroughShapePolicy() policy {
+	return policy{depth: 3, cMax: 2, nMax: 2, minTop: 1, leaves: shapeLeafOrder, prefixes: shapePrefixOrder,
+		cfgsFor: func(c, n int) []int {
+			if c == 1 {
+				return allCfgs()
+			}
+			return []int{0, len(cfgs) - 1}
+		},
+		nGM: func(c, n int) int { return 0 },
+		nMM: func(c, n int) int { return 0 },
+		nPrefix: func(c, n int) int {
+			if c == 1 || n <= 1 {
+				return 6
+			}
+			return 4
+		},
+		nLeaf: func(c, n int) int {
+			switch {
+			case c == 1 && n <= 1:
+				return fullShapeLeaves
+			case c == 1:
+				return 16
+			case n <= 1:
+				return 24
+			}
+			return 4
+		}}
+}
+
+// ---------------------------------------------------------------------------
+// shared sub-app family ("one sub-app mounted at several places")
+//
+// Every mount of the other families creates a sub-app of its own. Here one sub-app OBJECT is
+// mounted twice (app.Use(p1, sub); app.Use(p2, sub) - docs/api/app.md MountPath: "one or more path
+// patterns on which a sub-app was mounted"), next to each other or with sibling items in between,
+// at the top level, inside another sub-app and inside a group, with and without mounts of its own.
+// The group spelling registers the sub-app's items once per mount, with the same handlers.
+
+var sharedPrefixOrder = []string{"/api", "/", "/:t"}
+
+// leaf letters: those of the first family without the empty pattern (under a mount it is the known
+// StrictRouting finding of the first family, which two mounts of one sub-app only multiply)
+var sharedLeafOrder = func() []leaf {
+	var out []leaf
+	for _, l := range leafOrder {
+		if l.Pat != "" {
+			out = append(out, l)
+		}
+	}
+	return out
+}()
+
+const fullSharedLeaves = 30 // 3 kinds x 5 patterns x 2 behaviours
+
+func sharedContainers(withPlain bool) []clabel {
+	var out []clabel
+	if withPlain { // trees of two container letters: a reduced set of pairs
+		out = append(out, clabel{'d', "/api", "/"}, clabel{'d', "/", "/api"}, clabel{'d', "/api", "/api"}, clabel{'d', "/:t", "/api"}, clabel{'d', "/api", "/:t"},
+			clabel{'e', "/api", "/"}, clabel{'e', "/", "/api"})
+	} else {
+		for _, p1 := range sharedPrefixOrder {
+			for _, p2 := range sharedPrefixOrder {
+				out = append(out, clabel{'d', p1, p2})
+			}
+		}
+		out = append(out, clabel{'e', "/api", "/"}, clabel{'e', "/", "/api"}, clabel{'e', "/api", "/api"}, clabel{'e', "/:t", "/api"})
+	}
+	if withPlain {
+		for _, k := range []byte{'m', 'g'} {
+			for _, p := range sharedPrefixOrder {
+				out = append(out, clabel{K: k, P1: p})
+			}
+		}
+	}
+	return out
+}
+
+func quickSharedPolicy() policy {
+	two := []int{0, len(cfgs) - 1}
+	return policy{depth: 2, cMax: 2, nMax: 2, minTop: 1, leaves: sharedLeafOrder,
+		cfgsFor: func(c, n int) []int {
+			if c == 1 && n <= 1 {
+				return allCfgs()
+			}
+			return two
+		},
+		containers: func(c, n int) []clabel { return sharedContainers(c > 1) },
+		nLeaf: func(c, n int) int {
+			switch {
+			case c == 1 && n <= 1:
+				return fullSharedLeaves
+			case c == 1:
+				return 9
+			case n <= 1:
+				return 5
+			}
+			return 0
+		}}
+}
+
+func thoroughSharedPolicy() policy {
+	return policy{depth: 2, cMax: 2, nMax: 3, minTop: 1, leaves: sharedLeafOrder,
+		cfgsFor: func(c, n int) []int {
+			if c == 1 {
+				return allCfgs()
+			}
+			return []int{0, len(cfgs) - 1}
+		},
+		containers: func(c, n int) []clabel {
+			if c > 1 {
+				return append(sharedContainers(false), sharedContainers(true)[7:]...) // every pair + plain mounts and groups
+			}
+			return sharedContainers(false)
+		},
+		nLeaf: func(c, n int) int {
+			switch {
+			case c == 1 && n <= 1:
+				return fullSharedLeaves
+			case c == 1 && n == 2:
+				return 15
+			case c == 1:
+				return 5
+			case n <= 1:
+				return 20
+			case n == 2:
+				return 5
+			}
+			return 0
 		}}
 }
